@@ -32,7 +32,8 @@ theorem parseAtom_succ (n neg ts) : parseAtom (n+1) neg ts = (match ts with
             | .fuel => .fuel
             | .ok arg rest => closeParen neg (Ast.un (opHead c)) arg rest
           else .ok errNode r
-      else .ok (.leaf (leafHead c neg)) r) := rfl
+      else if c.ty = .number ∨ c.ty = .ecl_expr then .ok (.leaf (leafHead c neg)) r
+      else .ok errNode ts) := rfl
 
 theorem parsePow_succ (n ts) : parsePow (n+1) ts = (match parseFactor n ts with
     | .fuel => .fuel
@@ -149,9 +150,13 @@ def headCls : List Tok → Option Cls
 
 /-! ### big-step rules of the parser -/
 
-theorem ev_atom_leaf {c : Tok} {r : List Tok} (neg : Bool) (h1 : cls c.ty ≠ .lp) (h2 : cls c.ty ≠ .func) :
+theorem ev_atom_leaf {c : Tok} {r : List Tok} (neg : Bool) (h1 : cls c.ty ≠ .lp) (h2 : cls c.ty ≠ .func)
+    (h3 : c.ty = .number ∨ c.ty = .ecl_expr) :
     Ev (fun f => parseAtom f neg (c :: r)) (.ok (.leaf (leafHead c neg)) r) :=
-  Ev.step (g' := fun _ => _) (fun n => by rw [parseAtom_succ]; simp only [h1, h2, if_false]) (Ev.const _)
+  Ev.step (g' := fun _ => _) (fun n => by rw [parseAtom_succ]; simp only [h1, h2, if_false, h3, if_true]) (Ev.const _)
+
+theorem cls_leafTy {t : TT} (h : t = .number ∨ t = .ecl_expr) : cls t = .other := by
+  rcases h with h | h <;> rw [h] <;> decide
 
 theorem ev_atom_paren {c c2 : Tok} {r r2 : List Tok} {inner : Ast} (neg : Bool)
     (h1 : cls c.ty = .lp) (h2 : cls c2.ty = .rp)
@@ -585,11 +590,12 @@ theorem unneg_bin {h : Head} {l r : Ast} (hs : h.sel = []) :
 theorem renderAt_append_cons (lvl : Nat) (l : Ast) (t : Tok) (xs rest : List Tok) :
     (renderAt lvl l ++ t :: xs) ++ rest = renderAt lvl l ++ t :: (xs ++ rest) := by simp
 
-theorem body_leaf {h : Head} (hw : cls h.ty = .other) : BodyAtom (.leaf h) := by
+theorem body_leaf {h : Head} (hl : h.ty = .number ∨ h.ty = .ecl_expr) : BodyAtom (.leaf h) := by
+  have hw : cls h.ty = .other := cls_leafTy hl
   intro neg rest
   have h1 : cls h.tok.ty ≠ .lp := by show cls h.ty ≠ .lp; rw [hw]; decide
   have h2 : cls h.tok.ty ≠ .func := by show cls h.ty ≠ .func; rw [hw]; decide
-  have := ev_atom_leaf (r := rest) neg h1 h2
+  have := ev_atom_leaf (c := h.tok) (r := rest) neg h1 h2 hl
   have hh : Ast.scale neg (unneg (.leaf h)) = .leaf (leafHead h.tok neg) := by
     cases h with
     | mk ty val sel ng => cases ng <;> cases neg <;> simp [unneg, Ast.scale, Ast.head, Head.scale, leafHead, Head.tok]
@@ -763,9 +769,10 @@ theorem main_inv : ∀ e : Ast, WF e → P e ∧ P3 e ∧ P2 e := by
   intro e
   induction e with
   | leaf h =>
-    intro hw
-    have pe : P (.leaf h) := P_of_atom rfl ⟨h.tok, [], rfl, by show cls h.ty ≠ _; rw [show cls h.ty = .other from hw]; decide,
-      by show cls h.ty ≠ _; rw [show cls h.ty = .other from hw]; decide⟩ (body_leaf hw)
+    intro hl
+    have hw : cls h.ty = .other := cls_leafTy hl
+    have pe : P (.leaf h) := P_of_atom rfl ⟨h.tok, [], rfl, by show cls h.ty ≠ _; rw [hw]; decide,
+      by show cls h.ty ≠ _; rw [hw]; decide⟩ (body_leaf hl)
     exact ⟨pe, P3_of_P pe (by simp [natLevel]), P2_of_P pe (by simp [natLevel])⟩
   | un h a iha =>
     intro hw
